@@ -487,9 +487,11 @@ Definition bi_import (sp:span) (argv:list value) : Comp value :=
       | [n] => if n =? m_bitwise then Ret bitwise_dict else if n =? m_math then raise c_unmodelled sp else raise c_notfound sp   (* repaired: host KeyError *)
       | [6; 4] => Ret (VFloat (S754_infinity false))
       | [6; 1] => Ret (VFloat S754_nan)
+      | [6; 5] => Ret (VFloat (S754_finite false 7074237752028440 (-51)))          (* math.pi *)
+      | [6; 7] => Ret (VFloat (S754_finite false 6121026514868073 (-51)))          (* math.e *)
       | [6; -29; k] => if existsb (Z.eqb k) [0;1;2;3;4] then Ret (VFun (FModule [5; 6; -29; k])) else raise c_notfound sp
       | [n; k] => if n =? m_bitwise then (if existsb (Z.eqb k) [0;2;4;5;7] then Ret (VFun (FModule [5; m_bitwise; k])) else raise c_notfound sp)
-                  else if n =? m_math then raise c_unmodelled sp else raise c_notfound sp
+                  else if n =? m_math then (if existsb (Z.eqb k) [-9; -12; -23] then Ret (VFun (FModule [5; m_math; k])) else raise c_unmodelled sp) else raise c_notfound sp
       | _ => match path with n :: _ => if n =? m_math then raise c_unmodelled sp else raise c_notfound sp | [] => raise c_unmodelled sp end
       end
   | _ => raise c_unmodelled sp
@@ -529,6 +531,15 @@ Definition module_body (name:list Z) (sp:span) (argv:list value) : Comp value :=
               if k =? 0 then Ret (VInt (Z.land x y)) else if k =? 2 then Ret (VInt (Z.lor x y)) else if k =? 5 then Ret (VInt (Z.lxor x y))
               else if k =? 7 then Ret (VInt (if y <? 0 then Z.shiftr x (- y) else Z.shiftl x y)) else raise c_notfound sp
           | _ => raise c_type sp end
+      else if m =? m_math then
+        (* ㄴㄴ (is NaN), ㅁㄴ (is infinite), ㅈㄷ (absolute value): exact on integers, reals and - for the two tests - complex numbers *)
+        vs <- match_arguments sp argv is_num [1%nat] ;;
+        match vs with
+        | [VInt n] => if k =? -23 then Ret (VInt (Z.abs n)) else match float_of_int n with Some _ => Ret (VBool false) | None => raise c_arith sp end
+        | [VFloat f] => if k =? -23 then Ret (VFloat (fabs f)) else if k =? -9 then Ret (VBool (f_nan f)) else Ret (VBool (match f with S754_infinity _ => true | _ => false end))
+        | [VComplex r i] => if k =? -23 then raise c_unmodelled sp (* hypot *)
+                            else if k =? -9 then Ret (VBool (f_nan r || f_nan i)) else Ret (VBool (match r, i with S754_infinity _, _ | _, S754_infinity _ => true | _, _ => false end))
+        | _ => raise c_type sp end
       else raise c_unmodelled sp
   | _ => raise c_unmodelled sp
   end.
